@@ -81,7 +81,7 @@ class Cmp:
             return self.threeway(self.env[e['d']], sigma)
         if e.get('k') == 'call' and (e.get('callee') or '').split('::')[-1] == 'compare' and e.get('obj') is not None and len(e['args']) == 1:
             return self.rel(e['obj'], e['args'][0], sigma)
-        if e.get('k') == 'call' and e.get('obj') is None and (e.get('callee') or '').split('::')[-1] in ('strcmp', 'strcoll', 'strcasecmp', 'strncasecmp', 'stricmp', 'strncmp') and len(e.get('args', [])) >= 2:
+        if e.get('k') == 'call' and e.get('obj') is None and (e.get('callee') or '').split('::')[-1] in ('strcmp', 'strcoll', 'strcasecmp', 'strncasecmp', 'stricmp', 'strncmp', 'memcmp') and len(e.get('args', [])) >= 2:
             # the C three-way comparisons of the c_str() of one field of both operands
             def unc(a):
                 a = strip_copies(strip_casts(a))
@@ -90,6 +90,8 @@ class Cmp:
                 return a
             a0, a1 = unc(e['args'][0]), unc(e['args'][1])
             name = (e.get('callee') or '').split('::')[-1]
+            if name == 'memcmp':
+                name = 'strncmp'     # a byte comparison over a given length: a prefix comparison unless the lengths are known to be equal
             pa, pb = param_field(a0, self.params, self.env), param_field(a1, self.params, self.env)
             if pa is not None and pb is not None and pa[1] == pb[1] and pa[0] != pb[0]:
                 if name in ('strcasecmp', 'strncasecmp', 'stricmp'):
@@ -169,6 +171,12 @@ class Cmp:
                         return {'<': l < r2, '>': l > r2, '<=': l <= r2, '>=': l >= r2, '==': l == r2, '!=': l != r2}[op]
 
             def tuple_maker(x):
+                if x.get('k') == 'construct' and (x.get('rec') or '').startswith(('std::pair<', 'std::tuple<')) and len(x.get('args', [])) >= 2:
+                    return 'pair' if (x.get('rec') or '').startswith('std::pair<') else 'tuple'     # std::pair(a, b) / std::tuple(a, b, ..): lexicographic as well
+                if x.get('k') == 'other' and x.get('cls') == 'CXXUnresolvedConstructExpr' and (x.get('cty') or '').split('::')[-1].split('<')[0] in ('pair', 'tuple') and \
+                        len(x.get('children', [])) >= 2:
+                    x.setdefault('args', x['children'])      # the same construction inside a generic lambda (not yet resolved)
+                    return (x.get('cty') or '').split('::')[-1].split('<')[0]
                 if x.get('k') != 'call':
                     return None
                 n = x.get('callee') or (x.get('fn') or {}).get('name') or ''
